@@ -62,10 +62,12 @@ Proof.
   assert (Ht : gt_of_unix (if negb (yt <? xt) then xt + quot_i64 (time_Sub yt xt) 2 else yt + quot_i64 (time_Sub xt yt) 2)
                = tm_ts (tmidpoint X Y)).
   { apply gt_abs_inj; [| exact Wr |].
-    - apply gt_of_abs_wf. gobridge. unfold time_sub, go_div, sat64, unix_repr in *.
-      destruct (Z.ltb_spec yt xt); cbn [negb]; bcases; rewrite i64_id' by (consts; lia); consts; lia.
-    - unfold gt_of_unix. rewrite gt_abs_of_abs, Vr. gobridge. unfold time_sub, go_div, sat64, unix_repr in *.
-      destruct (Z.ltb_spec yt xt); cbn [negb]; bcases; rewrite i64_id' by (consts; lia); consts; lia. }
+    - apply gt_of_abs_wf. unfold unix_repr in *.
+      destruct (Z.ltb_spec yt xt); cbn [negb]; gobridge; unfold time_sub, go_div, sat64 in *;
+        bcases; rewrite i64_id' by (consts; lia); consts; lia.
+    - unfold gt_of_unix. rewrite gt_abs_of_abs, Vr. unfold unix_repr in *.
+      destruct (Z.ltb_spec yt xt); cbn [negb]; gobridge; unfold time_sub, go_div, sat64 in *;
+        bcases; rewrite i64_id' by (consts; lia); consts; lia. }
   destruct (negb (yt <? xt));
     cbn [Gen.measurements_Measurement_Timestamp Gen.measurements_Measurement_Offset Gen.measurements_Measurement_Error];
     rewrite Ht; unfold tmidpoint, Ftm.midpoint; cbn [tm_off tm_err X Y]; gobridge; reflexivity.
